@@ -951,6 +951,17 @@ class Explorer:
                 cm = next((fn_ for suf, fn_ in getattr(self, "call_models", {}).items() if cname.endswith(suf)), None)
                 if cm is not None:
                     rv = cm(st, args)   # a spec-supplied contract for an otherwise opaque callee
+                elif re.match(r"<\{closure@[^}]*\} as Fn(?:Mut|Once)?<", cname) and len(args) == 2 and isinstance(args[1], Tup) \
+                        and self._closure_of(cname) is not None and len(frames) < 12 \
+                        and len(self._closure_of(cname).args) == 1 + len(args[1].items):
+                    # a direct call of a local closure: run the closure's own MIR (arguments arrive as one tuple)
+                    target = self._closure_of(cname)
+                    loc = {}
+                    for (l, ty), v in zip(target.args, [args[0]] + list(args[1].items)):
+                        loc[l] = v
+                    frames.append(Frame(target, loc, dest, ret_block))
+                    block = "bb0"
+                    continue
                 elif re.search(r"(str::<impl str>|slice::<impl \[\w+\]>)::len$", cname) and len(args) == 1 and isinstance(args[0], Ref):
                     # str::len / <[T]>::len: the same pure length as PtrMetadata of that reference
                     key = ("len", args[0].obj, args[0].path)
